@@ -1,7 +1,7 @@
 SPECIFICATION Spec
 CONSTANTS
   Mods = {"ma", "mb", "mc"}
-  Families = {"flat2", "modname", "sample"}
+  Families = {"flat2", "modname", "sample", "late"}
   AssumeAll = FALSE
-INVARIANTS TypeOK RunOnce NoReentry OneObject Provenance StarRespectsUnderscore Terminates Usable Emit
+INVARIANTS TypeOK OnlyAvailable RunOnce NoReentry OneObject Provenance StarRespectsUnderscore Terminates Usable Emit
 CHECK_DEADLOCK FALSE
